@@ -131,7 +131,13 @@ def _work_batch(args):
                     res["unsupported"].append((name, w, str(u)))
                 except X.SpecError as u:
                     res["unsupported"].append((name, w, "xmlsem: " + str(u)))
-            for ob in obls:
+            def solve_all(obls):
+                out_ = []
+                for ob in obls:
+                    out_.append(solve_one(ob))
+                return out_
+
+            def solve_one(ob):
                 t0 = time.time()
                 g = z3.simplify(ob.goal)
                 if z3.is_true(g):
@@ -165,8 +171,19 @@ def _work_batch(args):
                                 break
                 dt = time.time() - t0
                 res["solver_s"] += dt
-                res["obligations"].append((ob.name, ob.kind, ob.fn, status, backend, round(dt, 4),
-                                           {k: v for k, v in ob.info.items() if k in ("why", "property", "clause")}, model))
+                return (ob.name, ob.kind, ob.fn, status, backend, round(dt, 4),
+                        {k: v for k, v in ob.info.items() if k in ("why", "property", "clause")}, model)
+            solved = solve_all(obls)
+            # alternative loop decomposition for separating delimiters (see verify_serialize)
+            if "serialize" in what and any(t[3] != "unsat" and t[2].endswith(".serialize") and "loop" in t[0] for t in solved):
+                try:
+                    ex2 = pv.verify_serialize(decl, variant=1)
+                    alt = solve_all(ex2.order)
+                    if all(t[3] == "unsat" for t in alt):
+                        solved = [t for t in solved if not t[2].endswith(".serialize")] + alt
+                except (Unsupported, X.SpecError):
+                    pass
+            res["obligations"] += solved
         return res
     except Exception as e:
         res["generator_error"] = "checker crash: " + repr(e) + "\n" + traceback.format_exc()[-1500:]
